@@ -32,6 +32,11 @@ type g3 struct {
 	procs []string
 	feat  map[string]bool
 	maxD  int
+	// multiDict allows forall over dictionaries with several entries (the
+	// body discards the pair first). Only for comparisons against the model,
+	// which knows that a run ending while the pair is on the stack is
+	// order-dependent; real-vs-real comparisons (C05, C11, C12) must not use it.
+	multiDict bool
 }
 
 func (g *g3) lit() ref.Tok { g.next++; return ref.TInt(1000 + g.next) }
@@ -105,7 +110,7 @@ func (g *g3) element(depth, loops int) []ref.Tok {
 		case 3:
 			coll = []ref.Tok{xn("["), g.proc(depth, 0), g.lit(), xn("]")}
 		}
-		if g.rng.IntN(5) == 0 {
+		if g.multiDict && g.rng.IntN(5) == 0 {
 			// several entries: the body discards the pair first, so the
 			// enumeration order cannot show
 			g.feat["forall over a multi-entry dictionary"] = true
@@ -365,7 +370,7 @@ func runC03(r *rt.Runner) {
 	nRand := r.N(200000, 3000000)
 	for k := 0; k < nRand; k++ {
 		r.Case("generated", func(c *rt.C) {
-			g := &g3{rng: c.Rand(), feat: map[string]bool{}, maxD: 2 + c.Rand().IntN(2)}
+			g := &g3{rng: c.Rand(), feat: map[string]bool{}, maxD: 2 + c.Rand().IntN(2), multiDict: true}
 			if !r.Quick() {
 				g.maxD = 2 + c.Rand().IntN(3)
 			}
